@@ -78,6 +78,8 @@ class H2Server:
         self.total_sent_data = 0
         self.client_wu: list[tuple] = []
         self.last_client_sid = 0
+        self.lowered_below_inflight = False
+        self.mcs_sent: list = []
 
     # ------------------------------------------------------------------ receiving
     def on_data(self, data: bytes):
@@ -109,6 +111,7 @@ class H2Server:
                 self.errors.append(f"unparsable {type(frame).__name__} body: {exc!r}")
                 continue
             self._frame(frame, length)
+        self._ensure_credit()
         self.pump()
 
     def _count(self, event):
@@ -195,15 +198,16 @@ class H2Server:
             if flen > self.lenient_frame_size and flen > self.acked[S_MAX_FRAME_SIZE]:
                 self.violations.append(("frame-size", f"DATA frame of {flen} bytes on stream {sid} exceeds MAX_FRAME_SIZE "
                                         f"{max(self.lenient_frame_size, self.acked[S_MAX_FRAME_SIZE])}"))
+            if flen > 0 and self.recv_conn_window < flen:
+                self.violations.append(("conn-window", f"DATA frame of {flen} bytes on stream {sid} while the connection window is {self.recv_conn_window}"))
             self.recv_conn_window -= flen
-            if self.recv_conn_window < 0:
-                self.violations.append(("conn-window", f"DATA on stream {sid} drives the connection window to {self.recv_conn_window}"))
             if st is None or st["closed_in"]:
-                self.violations.append(("data-on-closed", f"DATA on stream {sid} which is not open for the client"))
-                return
+                if st is None or st.get("ended_by_client"):
+                    self.violations.append(("data-on-closed", f"DATA on stream {sid} after the client had ended it (or never opened it)"))
+                return  # (DATA racing with our own RST_STREAM is legitimate)
+            if flen > 0 and st["recv_window"] < flen:
+                self.violations.append(("stream-window", f"DATA frame of {flen} bytes on stream {sid} while its window is {st['recv_window']}"))
             st["recv_window"] -= flen
-            if st["recv_window"] < 0:
-                self.violations.append(("stream-window", f"DATA on stream {sid} drives its window to {st['recv_window']}"))
             st["ex"]["body"] += f.data
             st["ex"]["data_frames"].append(len(f.data))
             self._credit(sid, flen)
@@ -262,8 +266,8 @@ class H2Server:
             return
         if sid in self.streams:
             st = self.streams[sid]
-            if st["closed_in"]:
-                self.violations.append(("headers-on-closed", f"HEADERS on half-closed stream {sid}"))
+            if st.get("ended_by_client"):
+                self.violations.append(("headers-on-closed", f"HEADERS on stream {sid} after the client had ended it"))
             st["ex"]["trailers"] = headers
             if "END_STREAM" in flags:
                 self._request_complete(sid)
@@ -302,6 +306,8 @@ class H2Server:
                              "send_window": self.client_settings[S_INITIAL_WINDOW_SIZE], "closed_in": False,
                              "closed_out": False, "responded": False, "uncredited": 0}
         self.max_open_seen = max(self.max_open_seen, open_before + 1)
+        if self.cfg.get("grant_on_headers"):
+            self._wu(sid, int(self.cfg["grant_on_headers"]))
         self._count("headers")
         plan = self.net.plan(token)
         if ex["refused"] or (self.goaway_sent is not None and sid > self.goaway_sent["last"]):
@@ -322,9 +328,10 @@ class H2Server:
     def _request_complete(self, sid):
         st = self.streams[sid]
         st["ex"]["end_stream_count"] += 1
-        if st["closed_in"]:
+        if st.get("ended_by_client"):
             self.violations.append(("double-end-stream", f"stream {sid} ended twice by the client"))
         st["closed_in"] = True
+        st["ended_by_client"] = True
         st["ex"]["complete"] = True
         st["ex"]["body"] = bytes(st["ex"]["body"])
         self._count("request_complete")
@@ -366,6 +373,20 @@ class H2Server:
             else:
                 self.counters["conn_uncredited"] = 0
 
+    def _ensure_credit(self):
+        """Whatever the policy, never leave an unfinished upload without credit and without a WINDOW_UPDATE on its way
+        (a window can also become non-positive through an INITIAL_WINDOW_SIZE decrease)."""
+        if self.cfg["wu_mode"] in ("none", "auto"):
+            if self.cfg["wu_mode"] == "none":
+                return
+        for sid, st in self.streams.items():
+            if not st["closed_in"] and st["recv_window"] <= 0 and not self.pending_settings:
+                self._wu(sid, -st["recv_window"] + max(st.get("uncredited", 0), 1000))
+                st["uncredited"] = 0
+        if self.recv_conn_window <= 0:
+            self._wu(0, -self.recv_conn_window + max(self.counters.get("conn_uncredited", 0), 1000))
+            self.counters["conn_uncredited"] = 0
+
     def _wu(self, sid, inc):
         if inc <= 0:
             return
@@ -380,6 +401,10 @@ class H2Server:
     def _send_settings(self, settings: dict):
         fr = hf.SettingsFrame(0, settings={int(k): int(v) for k, v in settings.items()})
         st = {int(k): int(v) for k, v in settings.items()}
+        if S_MAX_CONCURRENT_STREAMS in st:
+            self.mcs_sent.append(st[S_MAX_CONCURRENT_STREAMS])
+            if st[S_MAX_CONCURRENT_STREAMS] < self._open_count():
+                self.lowered_below_inflight = True
         self.pending_settings.append(st)
         if S_INITIAL_WINDOW_SIZE in st and st[S_INITIAL_WINDOW_SIZE] > self.acked[S_INITIAL_WINDOW_SIZE]:
             delta = st[S_INITIAL_WINDOW_SIZE] - self.acked[S_INITIAL_WINDOW_SIZE]
